@@ -350,12 +350,36 @@ type c41LockS3 struct {
 	heldSeen *string
 }
 
-func (s *c41LockS3) check(op string) {
-	if l := *s.log; l != nil {
+// c41MuFree reports whether l.mu is free for the duration of the observation.  Sound
+// against transient holders: observers are serialised (uploadFlush issues UploadSegment
+// and UploadIndex from two goroutines, whose own TryLock/Unlock pairs would otherwise
+// see each other), and "held" is only concluded when TryLock fails 50 times over
+// >= 10 ms while the observed S3 call is parked here -- a mutex held by the caller
+// stays held for the whole call, any other holder in these sequential schedules (no
+// cache, hence no prefetch; one operation at a time) lets go within microseconds.
+var c41ObsMu sync.Mutex
+
+func c41MuFree(l *PartitionLog) bool {
+	c41ObsMu.Lock()
+	defer c41ObsMu.Unlock()
+	for i := 0; i < 50; i++ {
 		if l.mu.TryLock() {
 			l.mu.Unlock()
-		} else if *s.heldSeen == "" {
-			*s.heldSeen = op
+			return true
+		}
+		time.Sleep(200 * time.Microsecond)
+	}
+	return false
+}
+
+func (s *c41LockS3) check(op string) {
+	if l := *s.log; l != nil {
+		if !c41MuFree(l) {
+			c41ObsMu.Lock()
+			if *s.heldSeen == "" {
+				*s.heldSeen = op
+			}
+			c41ObsMu.Unlock()
 		}
 	}
 }
@@ -404,12 +428,12 @@ func c41RunSched(sc *c41Sched) (string, string) {
 		case "init":
 			logs[ev.L] = NewPartitionLog("ns", "seq", int32(ev.L), 0, s3, nil, PartitionLogConfig{
 				Buffer: WriteBufferConfig{MaxBatches: 2}, Segment: SegmentWriterConfig{IndexIntervalMessages: 1}}, func(context.Context, *SegmentArtifact) {
-				if l := logs[ev.L]; l != nil {
-					if l.mu.TryLock() {
-						l.mu.Unlock()
-					} else if held == "" {
+				if l := logs[ev.L]; l != nil && !c41MuFree(l) {
+					c41ObsMu.Lock()
+					if held == "" {
 						held = "onFlush callback"
 					}
+					c41ObsMu.Unlock()
 				}
 			}, nil, nil)
 			cur = nil // RestoreFromS3 runs on the unpublished log: its unlocked accesses are AInit
